@@ -218,8 +218,13 @@ pub fn h_c02_attr() {
     for c in p1.chars().chain(p2.chars()) {
         sym::assume(c != quote);
     }
-    let mut src = String::from("<a  x = ");
+    // the same spellings as the value of a namespace declaration (an attribute, syntactically)
+    let as_declaration = sym::choose("decl", 2) == 1;
+    let mut src = String::from(if as_declaration { "<p:a  xmlns:p = " } else { "<a  x = " });
     src.push(quote);
+    if as_declaration {
+        src.push('u');
+    }
     src.push_str(&p1);
     src.push_str(&p2);
     src.push(quote);
@@ -230,8 +235,16 @@ pub fn h_c02_attr() {
     match xot.parse(&src) {
         Ok(doc) => {
             let el = xot.document_element(doc).unwrap();
-            sym::check("attribute-value-normalised", xot.get_attribute(el, x) == Some(want.as_str()));
-            sym::check("one-attribute", xot.attributes(el).len() == 1);
+            if as_declaration {
+                let mut want_ns = String::from("u");
+                want_ns.push_str(&want);
+                let (local, ns) = xot.name_ns_str(xot.node_name(el).unwrap());
+                sym::check("namespace-name-decoded-like-an-attribute-value", local == "a" && ns == want_ns);
+                sym::check("no-attribute", xot.attributes(el).len() == 0);
+            } else {
+                sym::check("attribute-value-normalised", xot.get_attribute(el, x) == Some(want.as_str()));
+                sym::check("one-attribute", xot.attributes(el).len() == 1);
+            }
         }
         Err(_) => sym::check("well-formed-document-accepted", false),
     }
@@ -482,7 +495,7 @@ pub fn h_c03_tags() {
 
 pub fn h_c03_rejects() {
     let mut xot = Xot::new();
-    let k = sym::choose("k", 13);
+    let k = sym::choose("k", 17);
     let v = sym::any_string("v", 1);
     for c in v.chars() {
         sym::assume(is_xml_char(c) & (c != '<') & (c != '&') & (c != '"'));
@@ -501,6 +514,11 @@ pub fn h_c03_rejects() {
         10 => "<a xmlns:p=\"u\"><p:b></p:c></a>".to_string(),
         // a prefix bound to the empty namespace name (itself a namespace error) gives p:x and x one expanded name
         12 => format!("<e xmlns:p=\"\" p:x=\"{}\" x=\"2\"/>", v),
+        // a sign is not a digit, in decimal and in hexadecimal references, in text and in attribute values
+        13 => format!("<a>{}&#x+41;</a>", v),
+        14 => format!("<a>{}&#+65;</a>", v),
+        15 => format!("<a x=\"{}&#x-41;\"/>", v),
+        16 => format!("<a x=\"{}&#x+41;\"/>", v),
         _ => "<a xmlns:p=\"u\" xmlns:q=\"u\"><p:b></q:b></a>".to_string(),
     };
     sym::class("KF-C03-close-tag-matched-by-expanded-name", k == 11);
